@@ -711,16 +711,24 @@ func nearAxisFamily() Family {
 	nd := len(ds)
 	return Family{
 		Name: "near-axis-segments-and-tangents",
-		N:    4 * nd * nd,
-		Rule: fmt.Sprintf("glyph A = moveto, nearly horizontal line (dy = da), curve whose start tangent is nearly horizontal|vertical (small component da) and whose end tangent is nearly horizontal|vertical (small component db), nearly vertical line (dx = db), closepath, nearly vertical moveto (dx = da), nearly horizontal line (dy = db), line, closepath; da, db from %d values 0, +-1e-7 … +-0.03 around the tolerances 1e-6, 1/214, 0.005, 1/107, 0.01", nd),
+		N:    5 * nd * nd,
+		Rule: fmt.Sprintf("(the last fifth of the items: the same outline 20,000 / 30,000 units away from the origin, where a tolerance relative to the coordinates would be larger than the deltas) glyph A = moveto, nearly horizontal line (dy = da), curve whose start tangent is nearly horizontal|vertical (small component da) and whose end tangent is nearly horizontal|vertical (small component db), nearly vertical line (dx = db), closepath, nearly vertical moveto (dx = da), nearly horizontal line (dy = db), line, closepath; da, db from %d values 0, +-1e-7 … +-0.03 around the tolerances 1e-6, 1/214, 0.005, 1/107, 0.01", nd),
 		Build: func(i int) *type1.Font {
-			d := radix(i, nd, nd, 2, 2)
+			far := i >= 4*nd*nd
+			if far {
+				i = (i-4*nd*nd)*4 + 1 // start tangent nearly vertical, end tangent nearly horizontal
+			}
+			d := radix(i, 2, 2, nd, nd)
+			d = []int{d[2], d[3], d[0], d[1]}
 			da, db := ds[d[0]], ds[d[1]]
 			f := Base()
 			g := f.Glyphs["A"]
 			g.Cmds = nil
 			g.HStem, g.VStem = nil, nil
 			x, y := 100.0, 50.0
+			if far {
+				x, y = 20000, -30000
+			}
 			g.MoveTo(x, y)
 			x, y = x+20, y+da
 			g.LineTo(x, y)
@@ -970,6 +978,44 @@ func curveGridFamily() Family {
 	}
 }
 
+// creepFamily: long paths whose segments are almost parallel to an axis, the
+// other coordinate creeping the same way by less than the writer's 1e-6
+// tolerance per segment: whatever the writer leaves out of a segment it has to
+// make up for later, or the outline read back wanders off (by 8000 x 9e-7 =
+// 0.0072 units, more than the 0.005 the round trip allows).
+func creepFamily() Family {
+	steps := []float64{9e-7, -9e-7, 5e-7, 9.9e-7}
+	return Family{
+		Name: "long-creeping-paths",
+		N:    len(steps) * 2 * 2,
+		Rule: "glyph A = one contour of 8000 segments one unit apart along an axis {x, y}, the other coordinate creeping by {9e-7, -9e-7, 5e-7, 9.9e-7} per segment, drawn with {lineto; moveto}",
+		Build: func(i int) *type1.Font {
+			d := radix(i, len(steps), 2, 2)
+			st := steps[d[0]]
+			f := Base()
+			g := f.Glyphs["A"]
+			g.Cmds = nil
+			g.HStem, g.VStem = nil, nil
+			g.MoveTo(10, 100)
+			for k := 1; k <= 8000; k++ {
+				a, b := 10+float64(k), 100+float64(k)*st
+				if d[1] == 1 {
+					a, b = 10+float64(k)*st, 100+float64(k)
+				}
+				if d[2] == 0 {
+					g.LineTo(a, b)
+				} else {
+					g.MoveTo(a, b)
+				}
+			}
+			if d[2] == 0 {
+				g.ClosePath()
+			}
+			return f
+		},
+	}
+}
+
 // big fonts ---------------------------------------------------------------------
 
 // bigFontFamily: fonts whose encrypted portion exceeds 64 KiB (PFB segment
@@ -1032,6 +1078,7 @@ func Families(tier string, dom Domain) []Family {
 		manyGlyphsFamily(),
 		curveFormsFamily(),
 		curveGridFamily(),
+		creepFamily(),
 		bigFontFamily(),
 		numberSweepFamily(dom),
 		alignmentFamily(),
